@@ -217,6 +217,7 @@ def shrink(sc, failing, budget=400):
         if len(cur.pkgs) > 1:
             cand = cur.copy()
             cand.pkgs.pop()
+            cand.sites = [x for x in cand.sites if x[3] < len(cand.pkgs)]
             n += 1
             if failing(cand):
                 cur = cand
